@@ -90,7 +90,63 @@ def mutate(rng, s):
 B32 = "abcdefghijklmnopqrstuvwxyz234567"
 
 
+# ---- the whole alphabet the FURL grammar allows, field by field (pb://TUBID@HINT,HINT/NAME):
+#   tub id : 1..32 characters c with c.lower() in the base32 alphabet; characters after the 32nd are an ignored
+#            extension (generated without '@' and '/')
+#   hint   : non-empty, anything but ',' and '/'   (so '@', ':', '%', newline, "pb:" ... are legal)
+#   name   : non-empty, anything but newline       (so '/', '@', ',' and a whole second FURL are legal)
+SEPARATORS = ["@", "/", ",", ":", "%", "\n", "pb://", "pb:", "[", "]", ".", "-", " ", "\\", "?", "#", "=", "\x00", "\r", "\t"]
+WIDE = ["\u00e9", "\u0663", "\u212a", "\uff20", "\uff0f", "\u2044", "\U0001d7d8", "\U0001f600", "\u0130", "\u00df", "\u3000",
+        "\ufeff", "\u202e", "\x7f", "\x80"]
+
+
+def wide_text(rng, forbidden, lo=1, hi=9):
+    out = []
+    for _ in range(rng.randrange(lo, hi + 1)):
+        k = rng.random()
+        if k < 0.45:
+            c = rng.choice(SEPARATORS)
+        elif k < 0.75:
+            c = rng.choice("abcxyzABZ0179")
+        elif k < 0.9:
+            c = rng.choice(WIDE)
+        else:
+            c = chr(rng.choice([rng.randrange(0x20, 0x7f), rng.randrange(0xa0, 0xd800), rng.randrange(0xe000, 0x110000)]))
+        out.append(c)
+    t = "".join(out)
+    for f in forbidden:
+        t = t.replace(f, "")
+    return t
+
+
+def gen_opaque_hint(rng):
+    k = rng.randrange(6)
+    if k == 0:
+        return gen_hint(rng).replace("/", "").replace(",", "") or "x:1"
+    if k == 1:
+        return rng.choice(["ssh:user@gateway.example:22", "proxy:me@corp.example:3128", "x:k=v@w", "y:@", "@:1", "@", "@@", "a@b@c",
+                           "tcp:a@b:1", "u@127.0.0.1:80", "pb:", "mailto:a@b", "%", "tcp:[fe80::1%en0]:1", "h\n", "\n"])
+    return wide_text(rng, [",", "/"]) or "@"
+
+
+def gen_triple(rng):
+    """a well-formed (tub id, hints, name) over the full alphabet of each field"""
+    n = rng.choice([1, 2, 5, 16, 31, 32, 32, 32, 32])
+    alpha = B32 + ("ABCXYZ" if rng.random() < 0.3 else "") + ("\u212a" if rng.random() < 0.1 else "")
+    tub = "".join(rng.choice(alpha) for _ in range(n))
+    if n == 32 and rng.random() < 0.25:
+        tub += wide_text(rng, ["@", "/"], 1, 5)                # ignored extension
+    hints = [gen_opaque_hint(rng) for _ in range(rng.choice([0, 1, 1, 2, 2, 3, 5]))]
+    name = wide_text(rng, ["\n"]) or "n"
+    if rng.random() < 0.2:
+        name = rng.choice(["name", "a/b/c", "na@me", "mail@host/x", "n?q#f", "pb://a@h/n", "@", "/", ",", "x@y,z/w"])
+    return tub, hints, name
+
+
 def gen_furl(rng):
+    if rng.random() < 0.35:
+        t, h, n = gen_triple(rng)
+        return rng.choice(["", "", "", "x", "pb://", "a@pb://"]) + "pb://" + t + "@" + ",".join(h) + "/" + n + rng.choice(["", "", "", "\n"])
     n = rng.choice([1, 2, 31, 32, 33, 40, 8])
     tub = "".join(rng.choice(B32 + ("ABZ\u212a" if rng.random() < 0.2 else "") + ("189=!" if rng.random() < 0.1 else ""))
                   for _ in range(n))
@@ -279,6 +335,7 @@ def oracle_furl(ctx, impl, s):
     _, t, h, n = r
     ctx.hist("decode_furl", "ok")
     ctx.case(["furl", repr(s)], nontrivial=True)
+    oracle_spelling(ctx, s, (t, h, n))
     try:
         again = impl.encode(t, h, n)
         r2 = impl.decode(again)
@@ -289,6 +346,75 @@ def oracle_furl(ctx, impl, s):
         ctx.fail("oracle/roundtrip", "decode_furl(%r) = %r but decoding the re-encoded FURL %r gives %r" % (s, r[1:], again, r2[1:]),
                  replay=dict(furl=repr(s), decoded=[t, h, n], reencoded=again, second=repr(r2)))
     return (t, h, n)
+
+
+def spelled_by(s, t, h, n):
+    """is (t, h, n) what the string s spells?  Independent of the pattern: s must be
+    <anything> 'pb://' TUBFIELD '@' HINTS '/' NAME [newline]  where TUBFIELD has no '@' (the FIRST '@' after the scheme
+    ends it) and starts with t (t = its first 32 characters), HINTS = ','.join(h), NAME = n."""
+    tail = "@" + ",".join(h) + "/" + n
+    for end in ("", "\n"):
+        if not s.endswith(tail + end):
+            continue
+        head = s[:len(s) - len(tail + end)]
+        cut = head.rfind("@")                           # the tub id field cannot contain '@'
+        region = head[cut + 1:]
+        i = region.find("pb://")
+        # the scheme occurrence that was matched lies after the last '@' of `head` (its field has no '@')
+        while i != -1:
+            field = region[i + 5:]
+            if field and field[:32] == t:
+                return True
+            i = region.find("pb://", i + 1)
+    return False
+
+
+def oracle_spelling(ctx, s, d):
+    """decoder side of "re-encoding gives an equivalent FURL": the decoded parts are the ones s spells"""
+    t, h, n = d
+    if not isinstance(s, str):
+        return
+    if not spelled_by(s, t, h, n):
+        ctx.fail("oracle/decode-not-equivalent", "decode_furl(%r) = (%r, %r, %r): these are not the parts the FURL spells (tub id field "
+                 "up to the first '@', hints up to the next '/', name = the rest); re-encoding gives %r"
+                 % (s, t, h, n, "pb://" + t + "@" + ",".join(h) + "/" + n),
+                 replay=dict(furl=s, decoded=[t, h, n]))
+
+
+def oracle_encode_decode(ctx, impl, triple, as_bytes=False):
+    """encoder side: for a well-formed (t, h, n), decode(encode(t, h, n)) = (t[:32], h, n), encoding that again
+    reproduces the FURL, and SturdyRef / TubRef built from it carry exactly these parts"""
+    from foolscap.referenceable import SturdyRef
+    t, h, n = triple
+    f = impl.encode(t, h, n)
+    subj = f
+    if as_bytes:
+        try:
+            subj = f.encode("utf-8")
+        except UnicodeEncodeError:
+            return f
+    want = ("ok", t[:32], list(h), n)
+    got = impl.decode(subj)
+    ctx.case(["triple", t, h, n, as_bytes], nontrivial=True)
+    ctx.hist("encode/decode", "%d hints%s%s" % (min(len(h), 3), ", '@' in a hint" if any("@" in x for x in h) else "",
+                                                  ", bytes" if as_bytes else ""))
+    if got != want:
+        ctx.fail("oracle/encode-decode-roundtrip", "encode_furl(%r, %r, %r) = %r (well-formed), but decode_furl of it gives %r"
+                 % (t, h, n, f, got[1:] if got[0] == "ok" else got[1]),
+                 replay=dict(tubid=t, hints=h, name=n, furl=f, as_bytes=as_bytes, decoded=repr(got)))
+        return f
+    if len(t) <= 32 and impl.encode(*got[1:]) != f:
+        ctx.fail("oracle/encode-decode-roundtrip", "encode_furl(*decode_furl(%r)) = %r" % (f, impl.encode(*got[1:])),
+                 replay=dict(tubid=t, hints=h, name=n, furl=f))
+    try:
+        sr = SturdyRef(subj)
+        parts = (sr.tubID, list(sr.locationHints), sr.name, list(sr.getTubRef().getLocations()), sr.getTubRef().getTubID())
+    except Exception as e:
+        parts = type(e).__name__
+    if parts != (t[:32], list(h), n, list(h), t[:32]):
+        ctx.fail("oracle/encode-decode-roundtrip", "SturdyRef(%r) has (tubID, hints, name, TubRef locations, TubRef id) = %r, the FURL "
+                 "was built from (%r, %r, %r)" % (f, parts, t[:32], h, n), replay=dict(tubid=t, hints=h, name=n, furl=f))
+    return f
 
 
 def oracle_identity(ctx, impl, furls):
@@ -499,7 +625,9 @@ def run(ctx):
                 "literal prefix, grammar-generated hints/FURLs and 1-2 character mutations of them (special characters "
                 ": . [ ] %% - , / @ newline, non-ASCII digits, Kelvin sign, NUL); function cases = FURL strings through "
                 "decode_furl/encode_furl/SturdyRef and (hint, handler set) through convert_legacy_hint/get_endpoint with the "
-                "real tcp/tor/i2p handlers; history cases = decode a FURL, mutate the hint list of that result (6 kinds, str and bytes), "
+                "real tcp/tor/i2p handlers; well-formed (tub id, hints, name) triples over the full alphabet of each field ('@' ':' '%%' "
+                "newline unicode in hints, '/' '@' ',' in names, ignored tub id extension) through encode_furl then decode_furl / "
+                "SturdyRef / TubRef, str and bytes; history cases = decode a FURL, mutate the hint list of that result (6 kinds, str and bytes), "
                 "decode an equal string again; non-trivial = decoded successfully / contains a colon; CPU time on %d adversarial "
                 "families with doubling sizes in a killed-on-timeout child process" % len(__import__("harness.c20_impl", fromlist=["x"]).FAMILIES))
     ctx.assumptions = [
@@ -537,6 +665,22 @@ def run(ctx):
     furls += ["pb://a@/n", "pb://a@,/n", "pb://a@h,/n", "pb://a@h/", "pb://@h/n", "pb://a@h/n\n", "pb://a@h/n\n\n", "pb://a/b@c/d",
               "xxpb://a@h/n", "pb://pb://a@h/n", "pb://\u212a@h/n", "pb://\u0130@h/n", "pb://A2@h/n", "pb://a1@h/n", "pb://a@h/n/m",
               "pb://" + "a" * 40 + "@h/n", "pb://" + "a" * 32 + "!!@h/n", "pb://a@h@i/n", "pb://a@h/n@m", "", "pb://", "pb://a@h"]
+
+    # well-formed triples over the full alphabet of each field; their encodings also go through every FURL check below
+    triples = []
+    for t in ("q5l37rle6pojjnllrwjyryulavpqdlq5", "abc", "q5l37rle6pojjnllrwjyryulavpqdlq5,ext"):
+        for h in ([], ["127.0.0.1:9900"], ["ssh:user@gateway.example:22"], ["tcp:a.example:1", "proxy:me@corp.example:3128", "b.example:2"],
+                  ["x:k=v@w", "y:@", "@:1"], ["@"], ["a\nb"], ["pb:a@b"]):
+            for n in ("name", "a/b/c", "na@me", "mail@host/x", "\u00e9t\u00e9", "pb://x@y/z", ","):
+                triples.append((t, h, n))
+    triples += [gen_triple(rng) for _ in range(ctx.n(600, 20000))]       # the plain ones above come first: simplest witness
+    enc = []
+    for i, tr in enumerate(triples):
+        enc.append(oracle_encode_decode(ctx, impl, tr, as_bytes=False))
+        if i % 5 == 0:
+            oracle_encode_decode(ctx, impl, tr, as_bytes=True)
+    seen_f = set(furls)
+    furls += [f for f in enc[:ctx.n(400, 20000)] if not (f in seen_f or seen_f.add(f))]
 
     # 2. direct oracle on the real code
     decoded = [oracle_furl(ctx, impl, s) for s in furls]
